@@ -17,8 +17,12 @@ EXPLANATION = (
   "(BulkAddRecord / BulkUpdateRecord and any other user-action or gateway call), and no `raise` is "
   "reachable after such a call; the options are read with the documented defaults; "
   "AddOrUpdateRecord wraps its single values into one-element lists and delegates with the "
-  "caller's options. Not decided: agreement of the matching / adding / updating with the "
-  "reference semantics (which rows are looked up, first/all/none selection, returned ids).")
+  "caller's options. R2: the records an input row matches are looked up as the statement "
+  "documents, `table.lookupRecords(**require)` on the action's own table -- the lookup call gets "
+  "the per-row require values as its only filter and no ordering option other than the default "
+  "(row id order), since `first` / `all` mean first / all in that order. Not decided: agreement "
+  "of the adding / updating with the reference semantics (first/all/none selection, returned "
+  "ids).")
 
 ON_MANY = {"first", "none", "all"}                     # from the statement of C28
 OPTION_DEFAULTS = {"update": True, "add": True, "on_many": "first", "allow_empty_require": False}
@@ -27,6 +31,7 @@ OPTION_DEFAULTS = {"update": True, "add": True, "on_many": "first", "allow_empty
 def check(run, repo, tier):
   w = World(repo)
   r1_validate_before_mutate(run, w)
+  r2_documented_lookup(run, w)
 
 
 def _option_vars(fn, p_opts):
@@ -233,6 +238,99 @@ def r1_validate_before_mutate(run, w):
          nontrivial=False)
 
 
+LOOKUP_METHODS = ("lookup_records", "lookupRecords")
+# Options of Table.lookup_records that are not column filters, with the value that means "as
+# documented" (read from the defaults in table.py: kwargs.pop('sort_by', None) / ('order_by', 'id')).
+LOOKUP_OPTIONS = ("sort_by", "order_by")
+
+
+def _lookup_option_defaults(w):
+  fn = w.fn("table.Table.lookup_records")
+  out = {}
+  for c in calls_in(fn.node.body):
+    if isinstance(c.func, ast.Attribute) and c.func.attr == "pop" and len(c.args) == 2 and \
+        isinstance(c.args[0], ast.Constant) and c.args[0].value in LOOKUP_OPTIONS and \
+        isinstance(c.args[1], ast.Constant) and isinstance(c.func.value, ast.Name) and \
+        c.func.value.id == (fn.node.args.kwarg.arg if fn.node.args.kwarg else None):
+      out[c.args[0].value] = c.args[1].value
+  if set(out) != set(LOOKUP_OPTIONS):
+    raise AnalysisError("Table.lookup_records: sort_by / order_by defaults not recognised")
+  return out
+
+
+def r2_documented_lookup(run, w):
+  R2 = run.rule("C28-R2", "BulkAddOrUpdateRecord looks matching records up as documented: "
+                "lookup_records(**<require values of the row>) on the action's own table, in the "
+                "default (row id) order", floor=2)
+  defaults = _lookup_option_defaults(w)
+  top = w.fn("useractions.UserActions.BulkAddOrUpdateRecord")
+  p_table, p_req = top.fi.params()[1], top.fi.params()[2]
+  found = []
+  def scan(fn, depth, via):
+    for (n, c, nm) in fn.calls():
+      if isinstance(c.func, ast.Attribute) and c.func.attr in LOOKUP_METHODS and \
+          fn.type_of(c.func.value) == T.TABLE:
+        found.append((fn, n, c, via))
+      elif depth > 0:
+        fi = H.self_method(w, fn, c)
+        if fi is not None and fi.qualname != fn.qualname and fi.name not in w.useraction_methods():
+          scan(w.fn_of(fi), depth - 1, (fn, n, c))
+  scan(top, 2, None)
+  if not found:
+    raise AnalysisError("BulkAddOrUpdateRecord: no <table>.lookup_records(...) call found")
+  for (fn, n, c, via) in found:
+    du = DefUse(fn)
+    stars = [k.value for k in c.keywords if k.arg is None]
+    explicit = [k for k in c.keywords if k.arg is not None]
+    bad = []
+    for k in explicit:
+      if k.arg in defaults:
+        if H.const_value(k.value) != (True, defaults[k.arg]):
+          bad.append("%s=%s (documented order is %s=%r)" % (k.arg, short(k.value, 30), k.arg,
+                                                           defaults[k.arg]))
+      else:
+        bad.append("extra filter %s=%s" % (k.arg, short(k.value, 30)))
+    if c.args or any(isinstance(a, ast.Starred) for a in c.args):
+      raise AnalysisError("BulkAddOrUpdateRecord: positional arguments in %s" % short(c))
+    # the ** dictionaries: none of them is given an ordering option
+    for sd in stars:
+      d = H.deref(fn, sd)
+      keys = []
+      if isinstance(d, ast.Dict):
+        keys = [k.value for k in d.keys if isinstance(k, ast.Constant)]
+      if isinstance(sd, ast.Name):
+        for x in walk_no_nested(fn.node):
+          if isinstance(x, ast.Subscript) and isinstance(x.ctx, ast.Store) and \
+              isinstance(x.value, ast.Name) and x.value.id == sd.id and \
+              isinstance(x.slice, ast.Constant):
+            keys.append(x.slice.value)
+          if isinstance(x, ast.Call) and isinstance(x.func, ast.Attribute) and \
+              x.func.attr in ("update", "setdefault") and isinstance(x.func.value, ast.Name) and \
+              x.func.value.id == sd.id:
+            keys += [k.arg for k in x.keywords if k.arg] + \
+                [a.value for a in x.args if isinstance(a, ast.Constant)]
+            for a in x.args:
+              if isinstance(a, ast.Dict):
+                keys += [k.value for k in a.keys if isinstance(k, ast.Constant)]
+      bad += ["ordering option %r put into the lookup arguments" % k for k in keys
+              if k in defaults]
+    run.ob(R2, fn.qualname, short(c), "the lookup uses the documented default order (by row id) "
+           "and no filter besides `require`: on_many='first' / 'all' mean first / all of "
+           "table.lookupRecords(**require)", not bad, witness="; ".join(bad) or None, fi=fn.fi,
+           node=c)
+    if via is None:
+      from_req = lambda x: isinstance(x, ast.Name) and x.id == p_req
+      ok = len(stars) == 1 and du.flows_from(from_req, stars[0])
+      recv = H.deref(fn, c.func.value)
+      tbl_ok = isinstance(recv, ast.Subscript) and fn.type_of(recv.value) == "dict[table.Table]" \
+          and isinstance(H.deref(fn, recv.slice), ast.Name) and \
+          H.deref(fn, recv.slice).id == p_table and not du.rebinders(p_table)
+      run.ob(R2, fn.qualname, "%s.%s(**<row of require>)" % (short(c.func.value, 30),
+                                                           c.func.attr),
+             "the records matched are those of the action's own table whose `require` columns "
+             "have the row's values", ok and tbl_ok, fi=fn.fi, node=c)
+
+
 U = "sandbox/grist/useractions.py"
 VARIANTS = [
   ("on-many-not-validated", U,
@@ -263,6 +361,17 @@ VARIANTS = [
   ("single-form-ignores-options", U,
    "    result = self.BulkAddOrUpdateRecord(table_id, require, col_values, options)",
    "    result = self.BulkAddOrUpdateRecord(table_id, require, col_values, {})", "C28-R1"),
+  ("lookup-in-manual-order", U,
+   "      records = list(table.lookup_records(**current_require))",
+   "      records = list(table.lookup_records(order_by=None, **current_require))", "C28-R2"),
+  ("lookup-newest-first", U,
+   "      records = list(table.lookup_records(**current_require))",
+   "      current_require['order_by'] = '-id'\n      records = list(table.lookup_records(**current_require))",
+   "C28-R2"),
+  ("lookup-in-wrong-table", U,
+   "      records = list(table.lookup_records(**current_require))",
+   "      records = list(self._engine.tables['_grist_Tables'].lookup_records(**current_require))",
+   "C28-R2"),
   ("on-many-last-unvalidated", U,
    "          if on_many == \"first\":\n            records = records[:1]\n          elif on_many == \"none\":",
    "          if on_many == \"first\":\n            records = records[:1]\n          elif on_many == \"last\":\n            records = records[-1:]\n          elif on_many == \"none\":",
